@@ -388,6 +388,18 @@ impl OutputList {
         Self { events: vec![] }
     }
 
+    /// Pass input events through untouched: every event is written exactly as it was read
+    /// (no re-escaping, no attribute or class normalisation, no whitespace trimming).
+    pub fn raw(input: InputList) -> Self {
+        Self {
+            events: input
+                .events
+                .into_iter()
+                .map(|ev| OutputEvent::Other(ev.event))
+                .collect(),
+        }
+    }
+
     pub fn is_empty(&self) -> bool {
         self.events.is_empty()
     }
